@@ -660,6 +660,14 @@ ASMJIT_FAVOR_SPEED Error Assembler::_emit(InstId inst_id, const Operand_& o0, co
 
       writer.emit8(0xF0);
     }
+    else if (Support::test(options, InstOptions::kX86_XRelease)) {
+      // XRELEASE without LOCK - only instructions that are not lockable (MOV mem, reg|imm).
+      if (ASMJIT_UNLIKELY(!Support::test(inst_flags, InstDB::InstFlags::kXRelease) || Support::test(inst_flags, InstDB::InstFlags::kLock))) {
+        goto InvalidXReleasePrefix;
+      }
+
+      writer.emit8(0xF3);
+    }
 
     // REP and REPNE prefixes.
     if (Support::test(options, InstOptions::kX86_Rep | InstOptions::kX86_Repne)) {
